@@ -67,7 +67,7 @@ structure MakeOK (m : MddMgr) (i : Nat) (L : List Int) (u : Nat) (m' : MddMgr) :
   ext : MExt m.tbl m'.tbl
   node : m'.tbl.node? u = some ⟨i, L⟩
   ge_two : 2 ≤ u
-  exact : ∀ ext, RefExact m ext → RefExact m' ext
+  exact : ∀ ext, MRefExact m ext → MRefExact m' ext
 
 theorem listInt_compare_eq (a b : List Int) : compare a b = .eq ↔ a = b := by
   exact Std.LawfulEqOrd.compare_eq_iff_eq
@@ -246,7 +246,7 @@ structure FoaOK (m : MddMgr) (i : Nat) (nodes : List Int) (r : Int) (m' : MddMgr
   lvl : i ≤ m'.tbl.levelOf r
   len : nodes.length = m.tbl.arity i
   den : ∀ a k, nodes[a i]? = some k → denM m'.tbl r a = denM m'.tbl k a
-  exact : ∀ ext, RefExact m ext → RefExact m' ext
+  exact : ∀ ext, MRefExact m ext → MRefExact m' ext
 
 theorem all_eq_of_all {l : List Int} {c : Int} (h : l.all (fun u => u == c) = true) :
     ∀ k ∈ l, k = c := by
